@@ -9,7 +9,7 @@ function and of itself (`lineFn_<variant>`, by `rfl`).  Everything is then prove
 
 * `lineFn_eq`   : the loop over `line_mappings` is a search for the first range containing the line;
 * `lineShell_code` : outside the ten intra-M macros (`intraM`) the ranges of `line_mappings` designate the sub-shell
-  the line's NAME designates (`Spec.lineShell`, ranges derived from `Hdr.macros_LINE`);
+  the line's NAME designates (`Spec.lineShellK`, ranges derived from `Hdr.macros_LINE`);
 * `fluorline_spec_<variant>` : the generated function meets `Spec.fluorLine`: rate × shell value for single lines,
   K-alpha, K-beta (K shell) and L-alpha (L3); L-beta = Σ of its 13 members, each evaluated without error slot;
   error for every other macro value.
@@ -277,8 +277,8 @@ def inSpec (line : Int) (k : Nat) : Bool :=
   decide ((lineRanges.getD k (0, 0, 0)).2.1 ≤ line) && decide (line ≤ (lineRanges.getD k (0, 0, 0)).2.2)
 
 omit T Z E error shellFn recFn in
-theorem lineShell_eq : lineShell line = ((List.range 9).find? (inSpec line)).map (fun k => (k : Int)) := by
-  unfold lineShell
+theorem lineShell_eq : lineShellK line = ((List.range 9).find? (inSpec line)).map (fun k => (k : Int)) := by
+  unfold lineShellK
   have : lineRanges = (List.range 9).map (fun k => lineRanges.getD k (0, 0, 0)) := by decide
   rw [this, List.find?_map, Option.map_map]
   show Option.map _ (List.find? (inSpec line) (List.range 9)) = _
@@ -302,7 +302,7 @@ theorem inSpec_eq_inMap (hl : line ∉ intraM) (k : Nat) (hk : k ∈ List.range 
 omit T Z E error shellFn recFn in
 /-- outside the ten intra-M macros the code's ranges and the name-derived ranges designate the same sub-shell -/
 theorem lineShell_code (hl : line ∉ intraM) :
-    lineShell line = (codeIdx line).map (fun k => Static.line_mappings_shell k) := by
+    lineShellK line = (codeIdx line).map (fun k => Static.line_mappings_shell k) := by
   rw [lineShell_eq, codeIdx, List.find?_congr (inSpec_eq_inMap line hl)]
   cases h : List.find? (inMap line) (List.range 9) with
   | none => rfl
@@ -312,20 +312,20 @@ theorem lineShell_code (hl : line ∉ intraM) :
     rcases this with h | h | h | h | h | h | h | h | h <;> subst h <;> rfl
 
 omit T Z E error shellFn recFn in
-theorem intraM_code (hl : line ∈ intraM) : codeIdx line = none ∧ line ≠ 2 ∧ line ≠ 3 ∧ (lineShell line).isSome = true := by
+theorem intraM_code (hl : line ∈ intraM) : codeIdx line = none ∧ line ≠ 2 ∧ line ≠ 3 ∧ (lineShellK line).isSome = true := by
   simp only [intraM, List.mem_cons, List.not_mem_nil, or_false] at hl
   rcases hl with h | h | h | h | h | h | h | h | h | h <;> subst h <;> decide
 
 omit T Z E error shellFn recFn in
-theorem codeIdx_LA_LB : codeIdx 2 = none ∧ codeIdx 3 = none ∧ lineShell 2 = none ∧ lineShell 3 = none := by decide
+theorem codeIdx_LA_LB : codeIdx 2 = none ∧ codeIdx 3 = none ∧ lineShellK 2 = none ∧ lineShellK 3 = none := by decide
 
 omit T Z E error shellFn recFn in
-theorem codeIdx_none_spec (hl : line ∉ intraM) (h : codeIdx line = none) : lineShell line = none := by
+theorem codeIdx_none_spec (hl : line ∉ intraM) (h : codeIdx line = none) : lineShellK line = none := by
   rw [lineShell_code line hl, h]; rfl
 
 omit T Z E error shellFn recFn in
 theorem codeIdx_some_spec (hl : line ∉ intraM) {k : Nat} (h : codeIdx line = some k) :
-    lineShell line = some (Static.line_mappings_shell k) := by
+    lineShellK line = some (Static.line_mappings_shell k) := by
   rw [lineShell_code line hl, h]; rfl
 
 theorem fluorShell_ne_any {v : Variant} {own : Int → Expect ℝ} (hna : ∀ t, own t ≠ .any) (s : Int) :
@@ -335,7 +335,7 @@ theorem fluorShell_ne_any {v : Variant} {own : Int → Expect ℝ} (hna : ∀ t,
   split
   · have := @vacancy_ne_any T Z s v (innerP T Z v own s.toNat) (own s) (hna s)
     revert this
-    cases vacancy T Z s v (innerP T Z v own s.toNat) (own s) <;> simp [scaleBy]
+    cases vacancyProd T Z s v (innerP T Z v own s.toNat) (own s) <;> simp [scaleBy]
   · simp
 
 theorem lineValue_ne_any {a b : Expect ℝ} (hb : b ≠ .any) : lineValue a b ≠ .any := by
@@ -349,7 +349,7 @@ theorem fluorLine1_ne_any {v : Variant} {own : Int → Expect ℝ} (hna : ∀ t,
   · by_cases h2 : E ≤ (0.0 : ℝ)
     · simp [h1, h2]
     · simp only [h1, h2, if_false]
-      cases lineShell line with
+      cases lineShellK line with
       | some s => exact lineValue_ne_any (fluorShell_ne_any T Z E hna _)
       | none =>
         simp only []
@@ -432,8 +432,8 @@ omit T Z E line shellFn in
 theorem lbBranch_spec (he : error.isFull = false) (g : Int → ℝ)
     (hrec : ∀ m ∈ Static.LB_LINE_MACROS_list, recFn m = Except.ok (g m, Slot.null)) :
     Meets (lbBranch recFn error) error
-      (if deq (lbMembers.foldl (fun acc m => acc + g m) (0.0 : ℝ)) (0.0 : ℝ) then .fails
-       else .value (lbMembers.foldl (fun acc m => acc + g m) (0.0 : ℝ))) := by
+      (if deq (lbMembersK.foldl (fun acc m => acc + g m) (0.0 : ℝ)) (0.0 : ℝ) then .fails
+       else .value (lbMembersK.foldl (fun acc m => acc + g m) (0.0 : ℝ))) := by
   have h0 := hrec (-63) (by decide)
   have h1 := hrec (-95) (by decide)
   have h2 := hrec (-34) (by decide)
@@ -686,7 +686,7 @@ theorem codeRanges_ne_names : codeRanges ≠ lineRangesOfNames := by
 
 /-- the difference is exactly the ten intra-M macros -/
 theorem codeRanges_missing : ∀ l ∈ (List.range 223).map (fun k => (3 : Int) - (k : Int)),
-    ((lineShell l).isSome = true ∧ codeIdx l = none) ↔ l ∈ intraM := by decide
+    ((lineShellK l).isSome = true ∧ codeIdx l = none) ↔ l ∈ intraM := by decide
 
 end C08
 end Xrl
